@@ -736,8 +736,8 @@ pub fn run(tier: Tier, seed: u64, replay: Option<&std::path::Path>) -> i32 {
         || prop_oneof![any::<String>().prop_map(|text| TextCase { text }), "\\PC{0,40}".prop_map(|text| TextCase { text }), "package [a-z]:[a-z];[ -~\\n]{0,80}".prop_map(|text| TextCase { text })],
         check_text,
     );
-    run.explore(4, 16, n / 16, || (any::<u16>(), proptest::collection::vec(bytemut_strategy(), 1..4)).prop_map(|(pool, muts)| BytesCase { pool, muts }), check_bytes);
-    run.explore(5, 16, n / 64, || (proptest::collection::vec(any::<u8>(), 0..200), any::<bool>()).prop_map(|(bytes, component_header)| RandomBytesCase { bytes, component_header }), check_random_bytes);
+    run.explore(4, 16, n / 4, || (any::<u16>(), proptest::collection::vec(bytemut_strategy(), 1..4)).prop_map(|(pool, muts)| BytesCase { pool, muts }), check_bytes);
+    run.explore(5, 16, n / 16, || (proptest::collection::vec(any::<u8>(), 0..200), any::<bool>()).prop_map(|(bytes, component_header)| RandomBytesCase { bytes, component_header }), check_random_bytes);
 
     // resolvable programs over generated libraries (C04's semantic generator, incl. its single-fault variants)
     run.explore(
